@@ -465,6 +465,28 @@ func init() {
 				b = append(b, 0xAA, 0xBB)
 				emit(101, TList{TBytes(b)})
 			}
+			{
+				// accepted inputs whose extension block is 2^14 words and more (the 16-bit length field counts
+				// words; the byte count does not fit 16 bits): legacy blocks of 0x3FFF / 0x4000 / 0x4001 / 0xFFFF
+				// words, a one-byte block of 4096 sixteen-byte elements, a two-byte block of 255 x 255 bytes
+				c := r.Fork(32)
+				fixed := []byte{0x90, 96, 0, 1, 0, 0, 0, 2, 0, 0, 0, 3}
+				for _, words := range []int{0x3FFF, 0x4000, 0x4001, 0xFFFF} {
+					b := append(append([]byte{}, fixed...), 0x12, 0x34, byte(words>>8), byte(words))
+					b = append(append(b, c.Bytes(4*words)...), 0xAA, 0xBB)
+					emit(101, TList{TBytes(b)})
+				}
+				one := append(append([]byte{}, fixed...), 0xBE, 0xDE, 0x44, 0x00) // 4096 x 17 bytes = 0x4400 words
+				for k := 0; k < 4096; k++ {
+					one = append(append(one, byte(1+k%14)<<4|15), c.Bytes(16)...)
+				}
+				emit(101, TList{TBytes(append(one, 0xAA))})
+				two := append(append([]byte{}, fixed...), 0x10, 0x05, 0x40, 0x00) // 255 x 257 bytes + 1 pad = 0x4000 words
+				for id := 1; id <= 255; id++ {
+					two = append(append(two, byte(id), 255), c.Bytes(255)...)
+				}
+				emit(101, TList{TBytes(append(two, 0, 0xAA, 0xBB, 0xCC))})
+			}
 			var hist [][]byte // the last well-formed wires: decoded in a row into one receiver (op 101 list)
 			for i := 0; i < n; i++ {
 				c := r.Fork(uint64(i))
